@@ -135,8 +135,16 @@ inductive Outcome where
   | rejected (e : Err)
 deriving Repr, DecidableEq, Inhabited
 
-/-- Python `str.strip` (opaque to the proofs). -/
-def pyStrip (s : String) : String := s.trimAscii.toString
+/-- `str.isspace` for one character (the code points Python 3.12 treats as whitespace). -/
+def pyIsSpace (c : Char) : Bool :=
+  let n := c.toNat
+  (9 ≤ n && n ≤ 13) || (28 ≤ n && n ≤ 32) || n == 133 || n == 160 || n == 5760 || (8192 ≤ n && n ≤ 8202) ||
+  n == 8232 || n == 8233 || n == 8239 || n == 8287 || n == 12288
+
+/-- Python `str.strip()`; written over character lists so that the kernel can evaluate it
+    (the proofs never look inside). -/
+def pyStrip (s : String) : String :=
+  String.ofList (((s.toList.dropWhile pyIsSpace).reverse.dropWhile pyIsSpace).reverse)
 
 def truthy (s : Option String) : Bool :=
   match s with
@@ -160,6 +168,15 @@ def laterThan (after before : Option Int) : Bool :=
   | none, _ => true
   | some _, none => false
   | some b, some a => decide (a ≥ b)
+
+/-- an optional NotOnOrAfter that `validate_on_or_after` refuses -/
+def optExpired (now : Int) (skew : Nat) : Option Int → Bool
+  | some t => !onOrAfterOk now skew t
+  | none => false
+/-- an optional NotBefore that `validate_before` refuses -/
+def optPremature (now : Int) (skew : Nat) : Option Int → Bool
+  | some t => !beforeOk now skew t
+  | none => false
 
 /-- `issue_instant_ok`: `lower < issued < upper` on struct_time tuples; the `isdst` field (-1 for the
     bounds, 0 for the parsed instant) makes the lower bound inclusive and the upper one exclusive. -/
@@ -207,20 +224,12 @@ def conditionOk (cfg : Cfg) (env : Env) (st : St) (a : Assertion) : Except Err S
   | none => .ok st
   | some c =>
     if c.nb.isNone && c.nooa.isNone && c.audiences.isEmpty && c.extraKnown.isEmpty then .ok st  -- `not conditions.keyswv()`
-    else
-      if c.nb.isSome && c.nooa.isSome && !laterThan c.nooa c.nb then .error .conditionNotOk
-      else
-        let st1 : Except Err St :=
-          match c.nooa with
-          | some t => if onOrAfterOk env.now cfg.skew t then .ok { st with notOnOrAfter := t } else .error .expired
-          | none => .ok st
-        match st1 with
-        | .error e => .error e
-        | .ok st1 =>
-          if (match c.nb with | some t => !beforeOk env.now cfg.skew t | none => false) then .error .premature
-          else if !forMe cfg.entityId c.audiences then .error .audience
-          else if c.extraKnown.any (fun k => !k) then .error .unknownCondition
-          else .ok st1
+    else if c.nb.isSome && c.nooa.isSome && !laterThan c.nooa c.nb then .error .conditionNotOk
+    else if optExpired env.now cfg.skew c.nooa then .error .expired
+    else if optPremature env.now cfg.skew c.nb then .error .premature
+    else if !forMe cfg.entityId c.audiences then .error .audience
+    else if c.extraKnown.any (fun k => !k) then .error .unknownCondition
+    else .ok { st with notOnOrAfter := c.nooa.getD st.notOnOrAfter }
 
 /-- `verify_attesting_entity`. -/
 def attestingOk (env : Env) (confs : List SubjConf) : Bool :=
@@ -247,8 +256,8 @@ def bearerConfirmed (cfg : Cfg) (env : Env) (st : St) (data : Option ScData) : C
   match data with
   | none => .skip
   | some d =>
-    if (match d.nooa with | some t => !onOrAfterOk env.now cfg.skew t | none => false) then .fail .expired
-    else if (match d.nb with | some t => !beforeOk env.now cfg.skew t | none => false) then .fail .premature
+    if optExpired env.now cfg.skew d.nooa then .fail .expired
+    else if optPremature env.now cfg.skew d.nb then .fail .premature
     else if !laterThan d.nooa d.nb then .skip
     else if env.asynchop && st.cameFrom.isNone then
       match d.irt with
